@@ -5,6 +5,7 @@ import (
 	"go/token"
 	"go/types"
 	"math/big"
+	"sort"
 	"strings"
 
 	"golang.org/x/tools/go/ssa"
@@ -98,7 +99,11 @@ func (fe *FnEnc) call(ins ssa.Instruction, c *ssa.CallCommon, rt types.Type) Val
 		ev := fe.newEval(fe.mem, fe.mem, env)
 		ev.calleePkg = f.pkg
 		t := ev.evalTerm(&ECall{Fn: f.name, Args: as})
-		return fe.wrapTerm(fe.s.name("sf", fe.s.sortOf(rt), t), rt)
+		rv := fe.wrapTerm(fe.s.name("sf", fe.s.sortOf(rt), t), rt)
+		fe.checkOnly = fe.willForget()
+		fe.afterCall(f.name, rv, pos)
+		fe.checkOnly = false
+		return fe.forgetHinted(rv, rt, pos)
 	case *ssa.Builtin:
 		return fe.builtin(f, c, args, rt, pos)
 	case *ssa.Function:
@@ -338,20 +343,107 @@ func (fe *FnEnc) unknownCall(what string, args []Val, rt types.Type) Val {
 
 // afterCall discharges the "after Callee@k" clauses of the function being encoded (its own contract,
 // also when it is inlined): checked at this point of the path, then assumed.
-func (fe *FnEnc) afterCall(callee string, res Val, pos token.Pos) {
-	own := fe.ct
-	if own == nil {
-		own = fe.g.contractFor(fe.fn)
+func (fe *FnEnc) ownContract() *Contract {
+	if fe.ct != nil {
+		return fe.ct
 	}
-	if own == nil || len(own.Afters) == 0 {
+	return fe.g.contractFor(fe.fn)
+}
+
+func (fe *FnEnc) afterCall(_ string, res Val, pos token.Pos) {
+	own := fe.ownContract()
+	if own == nil || len(own.Afters) == 0 || fe.curBlock == nil || fe.curIdx >= len(fe.curBlock.Instrs) {
 		return
 	}
-	if fe.callCount == nil {
-		fe.callCount = map[string]int{}
+	ci, ok := fe.curBlock.Instrs[fe.curIdx].(ssa.CallInstruction)
+	if !ok {
+		return
 	}
-	fe.callCount[callee]++
+	if ord, ok := fe.g.callOrdinals(fe.fn)[ci]; ok {
+		fe.afterAt(own, ord, res, pos)
+	}
+}
+
+// willForget: does opt forget apply to the call being encoded?
+func (fe *FnEnc) willForget() bool {
+	own := fe.ownContract()
+	if own == nil || own.Opts["forget"] == "" || fe.curBlock == nil || fe.curIdx >= len(fe.curBlock.Instrs) {
+		return false
+	}
+	ci, ok := fe.curBlock.Instrs[fe.curIdx].(ssa.CallInstruction)
+	if !ok {
+		return false
+	}
+	ord, ok := fe.g.callOrdinals(fe.fn)[ci]
+	if !ok {
+		return false
+	}
+	asked, hinted := false, false
+	for _, n := range strings.Split(own.Opts["forget"], ",") {
+		if strings.TrimSpace(n) == ord.name {
+			asked = true
+		}
+	}
 	for _, ac := range own.Afters {
-		if ac.Callee != callee || ac.K != fe.callCount[callee] {
+		if ac.Callee == ord.name && ac.K == ord.k {
+			hinted = true
+		}
+	}
+	return asked && hinted
+}
+
+// forgetHinted (opt forget=<name,...> on the function's own contract): the result of a hinted call is
+// replaced by a fresh value about which only the (just proved) hints are known. Forgetting facts is
+// always sound; it keeps definitions that only mattered for the hints out of later obligations.
+func (fe *FnEnc) forgetHinted(res Val, rt types.Type, pos token.Pos) Val {
+	own := fe.ownContract()
+	if own == nil || own.Opts["forget"] == "" || fe.curBlock == nil || fe.curIdx >= len(fe.curBlock.Instrs) {
+		return res
+	}
+	ci, ok := fe.curBlock.Instrs[fe.curIdx].(ssa.CallInstruction)
+	if !ok {
+		return res
+	}
+	ord, ok := fe.g.callOrdinals(fe.fn)[ci]
+	if !ok {
+		return res
+	}
+	asked := false
+	for _, n := range strings.Split(own.Opts["forget"], ",") {
+		if strings.TrimSpace(n) == ord.name {
+			asked = true
+		}
+	}
+	hinted := false
+	for _, ac := range own.Afters {
+		if ac.Callee == ord.name && ac.K == ord.k {
+			hinted = true
+		}
+	}
+	if !asked || !hinted {
+		return res
+	}
+	fresh := fe.freshVal("fg", rt)
+	for _, ac := range own.Afters {
+		if ac.Callee != ord.name || ac.K != ord.k {
+			continue
+		}
+		env := map[string]Val{}
+		for k, v := range fe.loopEnv() {
+			env[k] = v
+		}
+		env["result"] = fresh
+		ev := fe.newEval(fe.mem, fe.top.entryMem, env)
+		ev.resolve = fe.pointResolver(fe.curBlock, fe.curIdx+1, ev)
+		fe.s.assert(implies(fe.guard, ev.evalAssume(ac.E)))
+	}
+	return fresh
+}
+
+// afterAt discharges the after-clauses attached to the program point (name, k): checked here, then assumed.
+func (fe *FnEnc) afterAt(own *Contract, ord callOrd, res Val, pos token.Pos) {
+	for _, ac := range own.Afters {
+		if ac.Callee != ord.name || ac.K != ord.k {
 			continue
 		}
 		env := map[string]Val{}
@@ -360,11 +452,98 @@ func (fe *FnEnc) afterCall(callee string, res Val, pos token.Pos) {
 		}
 		env["result"] = res
 		ev := fe.newEval(fe.mem, fe.top.entryMem, env)
-		if fe.curBlock != nil {
-			ev.resolve = fe.pointResolver(fe.curBlock, fe.curIdx, ev)
-		}
-		fe.check("after", fmt.Sprintf("%s@%d.%s", callee, ac.K, ac.Label), ev.evalBool(ac.E), ac.Src, pos)
+		ev.resolve = fe.pointResolver(fe.curBlock, fe.curIdx+1, ev)
+		fe.check("after", fmt.Sprintf("%s@%d.%s", ord.name, ac.K, ac.Label), ev.evalBool(ac.E), ac.Src, pos)
 	}
+}
+
+// defOrdinals numbers the assignments of each local (its DebugRefs) in source order, as "=name".
+func (g *Gen) defOrdinals(fn *ssa.Function) map[*ssa.DebugRef]callOrd {
+	if g.defOrds == nil {
+		g.defOrds = map[*ssa.Function]map[*ssa.DebugRef]callOrd{}
+	}
+	if m, ok := g.defOrds[fn]; ok {
+		return m
+	}
+	var refs []*ssa.DebugRef
+	for _, b := range fn.Blocks {
+		for _, ins := range b.Instrs {
+			if d, ok := ins.(*ssa.DebugRef); ok && !d.IsAddr && d.Object() != nil {
+				// only definitions: the identifier is being assigned (its position is the identifier itself)
+				refs = append(refs, d)
+			}
+		}
+	}
+	sort.SliceStable(refs, func(i, j int) bool { return refs[i].Pos() < refs[j].Pos() })
+	m := map[*ssa.DebugRef]callOrd{}
+	cnt := map[string]int{}
+	for _, d := range refs {
+		n := "=" + d.Object().Name()
+		cnt[n]++
+		m[d] = callOrd{n, cnt[n]}
+	}
+	g.defOrds[fn] = m
+	return m
+}
+
+type callOrd struct {
+	name string
+	k    int
+}
+
+// callOrdinals numbers the calls of a function per called name (the function, method, function
+// variable or parameter named at the call site) in source order: "after hashFn@2" is the second
+// call of hashFn in the text of the function, wherever the encoder meets it.
+func (g *Gen) callOrdinals(fn *ssa.Function) map[ssa.CallInstruction]callOrd {
+	if g.callOrds == nil {
+		g.callOrds = map[*ssa.Function]map[ssa.CallInstruction]callOrd{}
+	}
+	if m, ok := g.callOrds[fn]; ok {
+		return m
+	}
+	type site struct {
+		ci   ssa.CallInstruction
+		name string
+	}
+	var sites []site
+	for _, b := range fn.Blocks {
+		for _, ins := range b.Instrs {
+			ci, ok := ins.(ssa.CallInstruction)
+			if !ok {
+				continue
+			}
+			cc := ci.Common()
+			name := ""
+			if cc.IsInvoke() {
+				name = cc.Method.Name()
+			} else {
+				switch v := cc.Value.(type) {
+				case *ssa.Function:
+					name = v.Name()
+				case *ssa.Global:
+					name = v.Name()
+				case *ssa.Parameter:
+					name = v.Name()
+				case *ssa.FreeVar:
+					name = v.Name()
+				case *ssa.Builtin:
+					name = v.Name()
+				default:
+					name = cc.Value.Name()
+				}
+			}
+			sites = append(sites, site{ci, name})
+		}
+	}
+	sort.SliceStable(sites, func(i, j int) bool { return sites[i].ci.Pos() < sites[j].ci.Pos() })
+	m := map[ssa.CallInstruction]callOrd{}
+	cnt := map[string]int{}
+	for _, st := range sites {
+		cnt[st.name]++
+		m[st.ci] = callOrd{st.name, cnt[st.name]}
+	}
+	g.callOrds[fn] = m
+	return m
 }
 
 // closureArgEffects over-approximates what a callee does by invoking a closure it was handed.
